@@ -3,6 +3,7 @@ package main
 import (
 	"context"
 	"database/sql"
+	"encoding/json"
 	"errors"
 	"fmt"
 	"io"
@@ -329,6 +330,14 @@ func runRegisterImplOn(rp *webauthn.RelyingParty, st *faultStore, op M) M {
 		fields := oneBuffer(unhx(op["rawId"].(string)), unhx(op["attObj"].(string)), unhx(op["cdj"].(string)))
 		cred := &webauthn.PublicKeyCreationCredential{RawID: fields[0], ClientExtensionResults: clientExtOf(op),
 			Response: webauthn.AuthenticatorAttestationResponse{ClientDataJSON: fields[2], AttestationObject: fields[1]}}
+		if j, ok := op["credJSON"].(string); ok {
+			// the credential as it arrives from a browser: the JSON document, decoded by the package's own UnmarshalJSON
+			var fromJSON webauthn.PublicKeyCreationCredential
+			if err := json.Unmarshal(unhx(j), &fromJSON); err != nil {
+				return M{"ok": false, "class": "credentialJSON", "calls": []M{}, "store": st.dump()}
+			}
+			cred = &fromJSON
+		}
 		res, err := rp.VerifyRegistrationCeremony(context.Background(), opts, cred, verifyOptsFromOp(op)...)
 		out := M{"calls": st.calls, "store": st.dump()}
 		if out["calls"] == nil {
@@ -391,6 +400,13 @@ func runAuthImplOn(rp *webauthn.RelyingParty, st *faultStore, op M) M {
 		cred := &webauthn.PublicKeyAssertionCredential{RawID: fields[0], ClientExtensionResults: clientExtOf(op),
 			Response: webauthn.AuthenticatorAssertionResponse{ClientDataJSON: fields[3], AuthenticatorData: fields[1],
 				Signature: fields[2], UserHandle: fields[4]}}
+		if j, ok := op["credJSON"].(string); ok {
+			var fromJSON webauthn.PublicKeyAssertionCredential
+			if err := json.Unmarshal(unhx(j), &fromJSON); err != nil {
+				return M{"ok": false, "class": "credentialJSON", "calls": []M{}, "store": st.dump()}
+			}
+			cred = &fromJSON
+		}
 		res, err := rp.VerifyAuthenticationCeremony(context.Background(), opts, cred)
 		out := M{"calls": st.calls, "store": st.dump()}
 		if out["calls"] == nil {
